@@ -1,0 +1,282 @@
+//go:build verif
+
+package pals
+
+// Bounded stand-in for C16: the piles of a piler with zero overlap slack are compared with the overlap-connected
+// components computed by a plain union-find, for every small set of pairs (exhaustive) and random larger sets
+// in every insertion order. Only compiled with -tags verif.
+
+import (
+	"fmt"
+	"math/rand"
+	"os"
+	"sort"
+	"strconv"
+	"strings"
+	"testing"
+
+	"github.com/biogo/biogo/feat"
+)
+
+type verifIv struct {
+	loc  int
+	s, e int
+}
+
+type verifPairSpec struct{ a, b verifIv }
+
+var verifLocs = []feat.Feature{Contig("c0"), Contig("c1"), Contig("c2")}
+
+func verifBuild(ps []verifPairSpec) []*Pair {
+	var out []*Pair
+	for i, p := range ps {
+		fp := &Pair{
+			A:     &Feature{ID: fmt.Sprint("a", i), Loc: verifLocs[p.a.loc], From: p.a.s, To: p.a.e},
+			B:     &Feature{ID: fmt.Sprint("b", i), Loc: verifLocs[p.b.loc], From: p.b.s, To: p.b.e},
+			Score: i,
+		}
+		fp.A.Pair, fp.B.Pair = fp, fp
+		out = append(out, fp)
+	}
+	return out
+}
+
+// components: features are linked when they lie on the same location and overlap or abut.
+func verifComponents(fs []verifIv) []int {
+	parent := make([]int, len(fs))
+	for i := range parent {
+		parent[i] = i
+	}
+	var find func(int) int
+	find = func(x int) int {
+		if parent[x] != x {
+			parent[x] = find(parent[x])
+		}
+		return parent[x]
+	}
+	for i := range fs {
+		for j := i + 1; j < len(fs); j++ {
+			if fs[i].loc == fs[j].loc && fs[i].s <= fs[j].e && fs[j].s <= fs[i].e {
+				parent[find(i)] = find(j)
+			}
+		}
+	}
+	out := make([]int, len(fs))
+	for i := range fs {
+		out[i] = find(i)
+	}
+	return out
+}
+
+// verifPile checks one set of pairs added in the given order; returns a canonical description of the piles.
+func verifPile(ps []verifPairSpec, order []int, filter PairFilter) (string, error) {
+	pairs := verifBuild(ps)
+	p := NewPiler(0)
+	seen := map[[2]verifIv]bool{}
+	var added []*Pair
+	var feats []verifIv
+	var featPtr []*Feature
+	for _, k := range order {
+		dup := seen[[2]verifIv{ps[k].a, ps[k].b}] || seen[[2]verifIv{ps[k].b, ps[k].a}]
+		err := p.Add(pairs[k])
+		if dup != (err != nil) {
+			return "", fmt.Errorf("Add(%v): duplicate=%v but error=%v", pairs[k], dup, err)
+		}
+		if err != nil {
+			continue
+		}
+		seen[[2]verifIv{ps[k].a, ps[k].b}] = true
+		added = append(added, pairs[k])
+		feats = append(feats, ps[k].a, ps[k].b)
+		featPtr = append(featPtr, pairs[k].A, pairs[k].B)
+	}
+	// the same pair again, in either orientation, is rejected
+	for _, fp := range added {
+		again := &Pair{A: &Feature{ID: "x", Loc: fp.A.Loc, From: fp.A.From, To: fp.A.To}, B: &Feature{ID: "y", Loc: fp.B.Loc, From: fp.B.From, To: fp.B.To}}
+		again.A.Pair, again.B.Pair = again, again
+		if p.Add(again) == nil {
+			return "", fmt.Errorf("pair %v accepted twice", fp)
+		}
+		swapped := &Pair{A: again.B, B: again.A}
+		if p.Add(swapped) == nil {
+			return "", fmt.Errorf("pair %v accepted again in the other orientation", fp)
+		}
+	}
+	comp := verifComponents(feats)
+	var canon []string
+	for round := 0; round < 2; round++ { // Piles may be called repeatedly
+		piles := p.Piles(filter)
+		inPile := map[*Feature]*Pile{}
+		for _, pl := range piles {
+			for _, im := range pl.Images {
+				if inPile[im] != nil {
+					return "", fmt.Errorf("feature %v is in two piles", im)
+				}
+				inPile[im] = pl
+			}
+		}
+		// piles of one location are pairwise disjoint (and do not abut)
+		for i, x := range piles {
+			for _, y := range piles[i+1:] {
+				if x.Loc == y.Loc && x.From <= y.To && y.From <= x.To {
+					return "", fmt.Errorf("piles %v and %v of one location touch", x, y)
+				}
+			}
+		}
+		canon = canon[:0]
+		pileOf := map[int]*Pile{}
+		for i, f := range featPtr {
+			pl, ok := f.Loc.(*Pile)
+			if !ok {
+				return "", fmt.Errorf("feature %v is not located in a pile", f)
+			}
+			keep := filter == nil || filter(f.Pair)
+			if keep != (inPile[f] == pl) {
+				return "", fmt.Errorf("feature %v: filter keeps=%v but listed in its pile=%v", f, keep, inPile[f] == pl)
+			}
+			if f.Mate() == nil || f.Mate().Pair != f.Pair || f.Mate().Mate() != f {
+				return "", fmt.Errorf("feature %v lost its mate", f)
+			}
+			if other, ok := pileOf[comp[i]]; ok && other != pl {
+				return "", fmt.Errorf("connected features are in different piles %v and %v", other, pl)
+			}
+			pileOf[comp[i]] = pl
+		}
+		if len(pileOf) != len(piles) {
+			return "", fmt.Errorf("%d piles reported for %d components", len(piles), len(pileOf))
+		}
+		byPile := map[*Pile]int{}
+		for c, pl := range pileOf {
+			if prev, ok := byPile[pl]; ok && prev != c {
+				return "", fmt.Errorf("features of different components share pile %v", pl)
+			}
+			byPile[pl] = c
+			lo, hi, first := 0, 0, true
+			for i := range feats {
+				if comp[i] != c {
+					continue
+				}
+				if first || feats[i].s < lo {
+					lo = feats[i].s
+				}
+				if first || feats[i].e > hi {
+					hi = feats[i].e
+				}
+				first = false
+			}
+			if pl.From != lo || pl.To != hi || pl.Loc != verifLocs[feats[c].loc] {
+				return "", fmt.Errorf("pile %v is not the union [%d,%d) of its members", pl, lo, hi)
+			}
+			canon = append(canon, fmt.Sprintf("%s[%d,%d)", pl.Loc.Name(), pl.From, pl.To))
+		}
+	}
+	sort.Strings(canon)
+	return strings.Join(canon, " "), nil
+}
+
+func verifPerms(n int, visit func([]int)) {
+	p := make([]int, n)
+	for i := range p {
+		p[i] = i
+	}
+	var rec func(k int)
+	rec = func(k int) {
+		if k == n {
+			visit(append([]int(nil), p...))
+			return
+		}
+		for i := k; i < n; i++ {
+			p[k], p[i] = p[i], p[k]
+			rec(k + 1)
+			p[k], p[i] = p[i], p[k]
+		}
+	}
+	rec(0)
+}
+
+func verifCheckSet(t *testing.T, ps []verifPairSpec, cases, nontrivial *int, failed *int) {
+	filters := []PairFilter{nil, func(p *Pair) bool { return p.Score%2 == 0 }}
+	want := ""
+	first := true
+	verifPerms(len(ps), func(order []int) {
+		for fi, f := range filters {
+			*cases++
+			got, err := verifPile(ps, order, f)
+			if err == nil && !first && got != want {
+				err = fmt.Errorf("piles depend on the insertion order: %q vs %q", got, want)
+			}
+			if err != nil {
+				if *failed < 10 {
+					t.Errorf("pairs %v order %v filter %d: %v", ps, order, fi, err)
+				}
+				*failed++
+				return
+			}
+			if first {
+				want, first = got, false
+			}
+			if strings.Count(got, "[") < 2*len(ps) {
+				*nontrivial++ // at least two features were merged into one pile
+			}
+		}
+	})
+}
+
+// TestVerifBounded_C16_Piles: piles are exactly the overlap-connected components, independent of insertion order.
+func TestVerifBounded_C16_Piles(t *testing.T) {
+	cases, nontrivial, failed := 0, 0, 0
+	thorough := os.Getenv("VERIF_TIER") == "thorough"
+	// exhaustive part: every set of one or two pairs over one location, starts 0..maxStart, lengths 1..maxLen
+	maxStart, maxLen := 4, 2
+	if thorough {
+		maxStart, maxLen = 5, 3
+	}
+	var ivs []verifIv
+	for s := 0; s <= maxStart; s++ {
+		for l := 1; l <= maxLen; l++ {
+			ivs = append(ivs, verifIv{0, s, s + l})
+		}
+	}
+	var one []verifPairSpec
+	for _, a := range ivs {
+		for _, b := range ivs {
+			one = append(one, verifPairSpec{a, b})
+		}
+	}
+	for _, p := range one {
+		verifCheckSet(t, []verifPairSpec{p}, &cases, &nontrivial, &failed)
+	}
+	for _, p := range one {
+		for _, q := range one {
+			verifCheckSet(t, []verifPairSpec{p, q}, &cases, &nontrivial, &failed)
+		}
+	}
+	exhaustive := cases
+	// random part: 3..5 pairs on 1..3 locations (nested, abutting, chained, duplicated), every insertion order
+	seed, _ := strconv.Atoi(os.Getenv("VERIF_SEED"))
+	rnd := rand.New(rand.NewSource(int64(seed) + 16))
+	samples := 1500
+	if thorough {
+		samples = 20000
+	}
+	for k := 0; k < samples; k++ {
+		n := 3 + rnd.Intn(3)
+		locs := 1 + rnd.Intn(3)
+		ps := make([]verifPairSpec, n)
+		riv := func() verifIv {
+			s := rnd.Intn(8)
+			return verifIv{rnd.Intn(locs), s, s + 1 + rnd.Intn(3)}
+		}
+		for i := range ps {
+			ps[i] = verifPairSpec{riv(), riv()}
+			if i > 0 && rnd.Intn(6) == 0 {
+				ps[i] = ps[rnd.Intn(i)] // duplicated
+				if rnd.Intn(2) == 0 {
+					ps[i].a, ps[i].b = ps[i].b, ps[i].a
+				}
+			}
+		}
+		verifCheckSet(t, ps, &cases, &nontrivial, &failed)
+	}
+	fmt.Printf("BOUNDED name=C16.piles cases=%d nontrivial=%d exhaustive=false domain=\"zero overlap slack; exhaustive: every set of 1..2 pairs of intervals on one location (starts 0..%d, lengths 1..%d), both insertion orders, with and without a pair filter, two Piles calls (%d cases); random (seeded): %d sets of 3..5 pairs on 1..3 locations with duplicates, every insertion order; oracle: union-find over overlap-or-abut links\"\n", cases, nontrivial, maxStart, maxLen, exhaustive, samples)
+}
